@@ -9,7 +9,7 @@ HOOK_COMMITS = subprocess.run(
 TECH = "deterministic simulation with fault injection (seeded search over schedules and fault sequences; whole anemo networks on an in-memory datagram fabric under a virtual clock)"
 
 # id -> (category, design_ref, text, note, technique)
-NET_NOTE = "Real anemo/quinn/rustls/tokio code on a simulated socket, clock and scheduler (hooks H1-H6); bounded node counts, run lengths and message sizes; single-threaded interleavings at await-point granularity; TLS randomness real (contents only)."
+NET_NOTE = "Real anemo/quinn/rustls/tokio code on a simulated socket, clock and scheduler (hooks H1-H7 in /repo; the order in which runnable tasks are polled is drawn per run from fifo / rare-swap / lifo / random through a seam in the simulator's vendored tokio, /verif/sim/vendor); bounded node counts, run lengths and message sizes; one thread: interleavings at await-point granularity, a CPU-bound handler on another worker thread is modelled by a task that is neither polled nor dropped for a while; TLS randomness real (contents only)."
 CLAIMED = {
  "C01": ("exploration", "DESIGN.md §8 C01",
    "Seeded search over adversarial handshakes: a raw QUIC endpoint holding only key K' dials / is dialed by real Networks presenting replayed, re-signed, expired, multi-certificate, byte-mutated and missing certificates under loss/duplication/corruption; every PeerId a Network returns, lists, announces or attributes on requests/responses must be a key the remote endpoint holds (ground-truth ledger); controls prove the adversary is admitted under its own identity. Single-byte mutations and non-Ed25519 certificates are also run directly against the three certificate verifiers. Sampling, not proof.",
@@ -22,7 +22,7 @@ CLAIMED = {
    NET_NOTE, TECH),
  "C04": ("exploration", "DESIGN.md §8 C04",
    "Two engines: (a) network histories of dials, re-dials (replacement), disconnects, remote closes, restarts and partitions among 3-5 Networks with observers calling peers()/peer()/subscribe() at PRNG instants; per subscription snapshot+events must reproduce peers(), alternate strictly per peer and never lose a replacement; (b) the real active-peer set driven directly with real connections in seeded operation orders against a reference map, where the late exit of a replaced connection's handler is produced on every run.",
-   NET_NOTE + " Races that need two OS threads inside a synchronous critical section are out of reach (DESIGN.md §11).", TECH),
+   NET_NOTE + " Preemption between two lock acquisitions is simulated through hook H7; races that need two OS threads inside one synchronous critical section are out of reach (DESIGN.md §11).", TECH),
  "C05": ("exploration", "DESIGN.md §8 C05",
    "Seeded search: two real Networks dial each other with PRNG-chosen offsets, per-datagram latencies, duplication, reordering and (separately) loss until both dials returned; after a quiet period derived from the configured timeouts each must list the other exactly once, RPCs succeed both ways, no further events arrive and, when both dials succeeded, the survivor is the connection dialed by the greater PeerId; plus the complete tie-break table against the reference rule.",
    NET_NOTE, TECH),
@@ -34,7 +34,7 @@ CLAIMED = {
    "Wire codecs reached through cfg-guarded wrappers (hook H6); reference encoder written from the property text; message generator is sampled, the listed sub-spaces are enumerated completely per message.", "deterministic simulation of the byte-stream seam with fault enumeration (EOF / error / short I/O at every offset)"),
  "C08": ("exploration", "DESIGN.md §8 C08",
    "Seeded search over shutdown instants: 2-4 Networks with RPCs in both directions, dials to dead addresses, inbound handshakes over lossy links and concurrent API calls at the moment of explicit or drop-triggered shutdown, plus runtime teardown and partial teardown (quinn driver tasks aborted, fatal recv error) at PRNG instants; shutdown returns within the idle-wait bound, the address is re-bindable at once, every service clone is dropped, subscribers drain then end, weak references stop upgrading, remotes observe the loss, no API call hangs, no panic, and the simulation thread never stops making progress (watchdog).",
-   NET_NOTE + " Multi-threaded runtime teardown interleavings of anemo's own tasks have no add-only seam (DESIGN.md §11).", TECH),
+   NET_NOTE + " Handlers that are CPU-bound at the moment of shutdown are included (held tasks); cancelling anemo's own tasks one by one during a multi-threaded runtime teardown has no add-only seam (DESIGN.md §11).", TECH),
  "C09": ("exploration", "DESIGN.md §8 C09",
    "Seeded search over histories of dials, disconnects and restarts among 3-5 Networks under a PRNG schedule of partitions, one-way blackholes, loss bursts and heals, followed by a fault-free tail longer than idle timeout + connect timeout: at the end A lists B iff B lists A and every listed peer answers an RPC; disconnect removes at once with LostPeer(Requested); every one-sided close/loss is reported by the other side within idle timeout + keep-alive interval + latency.",
    NET_NOTE, TECH),
@@ -60,8 +60,8 @@ CLAIMED = {
    "Seeded search over arrival, completion, failure and cancellation schedules from 2-4 peers through clones of one real InflightLimitLayer, driven directly on the virtual clock and end to end behind a Network: per-peer gauge never exceeds the limit, ReturnError refuses exactly when the model is at the limit, Block admits when a slot frees, no permit leaks after long histories, one peer never delays another.",
    "Real anemo-tower layer and tokio semaphore under the simulator's scheduler and virtual clock; bounded histories.", TECH),
  "C19": ("exploration", "DESIGN.md §8 C19",
-   "Frozen-clock regime only: quotas whose replenishment period exceeds a run's wall time by orders of magnitude, concurrent arrivals in PRNG order through clones: per peer exactly burst requests reach the service, refusals carry TooManyRequests with a positive wait-nanos hint and never reach the service, Block-mode excess stays pending, peers are independent. Replenishment arithmetic over time is governor's and has no seam here (not reached).",
-   "governor reads a real TSC clock and futures-timer's real timer thread; neither can be virtualised without rewriting rate_limit.rs, so only schedule-dependence is explored.", TECH + "; restricted to the frozen-clock regime"),
+   "Seeded search on simulated time: one real RateLimitLayer (governor's GCRA on its own MonotonicClock, which follows the simulated clock; waits are simulated timers) with burst 1-8 and one cell per 2 ms - 2 s, 1-4 peers, 5-120 requests at PRNG instants over up to 40 periods through clones and through several services of one layer, both wait modes, cancelled waiters; oracles: every window of a peer's admissions against a bucket of burst cells (replay of the actual admission instants), refusals only when less than one cell is available, immediate, with a positive hint, never reaching the service; in Block mode every request admitted no later than the first-come-first-served schedule of its own quota plus one period; per-peer independence by comparison with a second limiter that sees only that peer. A second scenario keeps the frozen regime (one cell per hour). Known finding F-D: governor 0.6.3 keeps burst+1 cells once a bucket has been full.",
+   "Real anemo-tower layer and real governor 0.6.3 source; the simulator build switches governor's optional quanta feature off (vendored manifest) so that its clock is std::time::Instant, which the clock seam answers with simulated time, and replaces futures-timer by a Delay on the tokio clock (DESIGN.md 13.7). The production build's cycle-counter clock and timer thread are not exercised.", TECH),
  "C20": ("exploration", "DESIGN.md §8 C20",
    "Seeded search end to end (sender identity comes from the simulated handshake, allow-list a PRNG subset of 3-5 peers, concurrent requests over the faulty fabric) and directly through clones of the layered service with listed/unlisted/absent senders and closure authorizers returning arbitrary responses: the wrapped service's log contains exactly the accepted requests and refusals carry exactly the authorizer's response.",
    "Real anemo-tower layer; the layer holds no mutable state, so the schedule dimension is expected to be inert.", TECH),
@@ -106,7 +106,7 @@ def main():
         "setup_cmd": "cd /verif/sim && CARGO_NET_OFFLINE=true cargo build --release --offline && ./target/release/sim selftest --n 8",
         "hooks": {
             "guard": "bmwill_anemo_verif",
-            "enable": "RUSTFLAGS='--cfg bmwill_anemo_verif --cfg tokio_unstable' (set in /verif/sim/.cargo/config.toml; the simulator crate path-depends on /repo/crates/anemo and /repo/crates/anemo-tower, so every check rebuilds from /repo's working tree)",
+            "enable": "RUSTFLAGS='--cfg bmwill_anemo_verif --cfg tokio_unstable' (set in /verif/sim/.cargo/config.toml; the simulator crate path-depends on /repo/crates/anemo and /repo/crates/anemo-tower, so every check rebuilds from /repo's working tree). Seams outside /repo, in the simulator's own build only ([patch.crates-io] in /verif/sim/Cargo.toml): vendor/tokio (1.53.1 + runtime::sim_sched: order of runnable tasks, held tasks), vendor/governor (0.6.3, quanta feature off), vendor/futures-timer (Delay on the tokio clock)",
             "baseline_off_cmd": "cd /repo && cargo test --workspace --no-fail-fast --offline",
             "source_commits": [l.split()[0] for l in HOOK_COMMITS][::-1],
             "add_only": True,
